@@ -1,3 +1,4 @@
 import PytaskProofs.AuditTool
 import PytaskProofs.Properties.C01
 import PytaskProofs.Properties.C19
+import PytaskProofs.Properties.C06
